@@ -37,6 +37,11 @@ FORBIDDEN = [
 ]
 
 os.environ[GUARD] = "1"
+_PYCACHE = os.environ.get("VERIF_PYCACHE", "/var/tmp/embverif-pycache")
+sys.dont_write_bytecode = False
+sys.pycache_prefix = _PYCACHE
+os.environ["PYTHONPYCACHEPREFIX"] = _PYCACHE
+os.environ.pop("PYTHONDONTWRITEBYTECODE", None)
 if REPO not in sys.path:
     sys.path.insert(0, REPO)
 
